@@ -55,7 +55,8 @@ REQUIRED = [
     'batches_compared', 'agg_compared', 'returned_agg_compared', 'twin_compared',
     'strict_cnt_checks', 'shard_union_checks', 'merged_results_compared', 'fanout_runs',
     'shared_iterator_runs', 'worker_threads', 'shim_futures_installed', 'fuse_by_chain_layouts',
-    'two_agg_stage_specs',
+    'two_agg_stage_specs', 'sliced_merged_results_compared',
+    'sliced_shards_with_different_key_sets',
 ]
 CHUNK_TIMEOUT_S = {'quick': 300, 'thorough': 3000}
 
@@ -154,6 +155,9 @@ def compare(ctx, case, tag, res, want, twin, check_ret=True):
   from ml_metrics._src.chainables import transform
   want_outs, want_agg = want
   ok = True
+  res = dict(res, agg=w.norm_agg(res['agg']))
+  if twin is not None:
+    twin = dict(twin, agg=w.norm_agg(twin['agg']))
   ctx.count('batches_compared', len(res['outs']))
   if w.canon(res['outs']) != w.canon(want_outs):
     ok = False
@@ -169,6 +173,8 @@ def compare(ctx, case, tag, res, want, twin, check_ret=True):
     ctx.count('returned_agg_compared')
     ret = res['ret']
     got = ret.agg_result if isinstance(ret, transform.AggregateResult) else ret
+    if isinstance(ret, transform.AggregateResult):
+      got = w.norm_agg(got)
     if got != want_agg:
       ok = False
       ctx.violation('returned_aggregate_differs', case,
@@ -399,10 +405,13 @@ def run_c(ctx, case, want, twin):
   keys = stage_aggs(spec, layout)
   last_want = None
   if keys and keys[-1] is not None:
-    last_want = {keys[-1]: want[1][keys[-1]]}
+    last_want = {k: v for k, v in want[1].items()
+                 if k == keys[-1] or k.startswith(keys[-1] + '|')}
   from ml_metrics._src.chainables import transform
   ret = res['ret']
   got = ret.agg_result if isinstance(ret, transform.AggregateResult) else ret
+  if isinstance(ret, transform.AggregateResult):
+    got = w.norm_agg(got)
   ctx.count('returned_agg_compared')
   if got != last_want:
     ctx.violation('returned_aggregate_differs', case,
@@ -463,14 +472,20 @@ def run_d(ctx, case, want, twin):
     ctx.violation('merge_or_get_result_raised', case,
                   {'error': f'{type(e).__name__}: {str(e)[:300]}'}, mechanism=key)
     return
+  sliced = bool(spec.get('slice'))
   for label, got in results:
     ctx.count('merged_results_compared')
     ctx.count('agg_compared')
+    got = w.norm_agg(got)
+    if sliced:
+      ctx.count('sliced_merged_results_compared')
+      if any(set(dict(st)) != set(dict(states[0])) for st in states if st is not None):
+        ctx.count('sliced_shards_with_different_key_sets')
     if got != want_agg:
       ctx.violation('merged_shard_states_differ', case,
                     {'via': label, 'got': repr(got)[:300], 'want': repr(want_agg)[:300]},
                     mechanism=f'{tag}:merged-aggregate-differs')
-    elif twin is not None and got != twin['agg']:
+    elif twin is not None and got != w.norm_agg(twin['agg']):
       ctx.violation('differs_from_single_threaded_run', case,
                     {'via': label, 'got': repr(got)[:200], 'twin': repr(twin['agg'])[:200]},
                     mechanism=f'{tag}:differs-from-strategy-a')
@@ -556,6 +571,14 @@ def chunk_e1(ctx, spec):
   rng = random.Random(spec['rseed'] * 1000003 + spec['chunk'] * 13 + 3)
   for i in range(spec['n_pipe']):
     pspec = gen_spec(rng, delays=False)
+    if pspec.get('agg') and rng.random() < 0.35:
+      # The final aggregate is also sliced per row by the bit length of the value:
+      # shards then hold different sets of slice keys.
+      # (Masked inputs become int64 arrays inside the library: only when every
+      # value and the sum stay far below 2**63.)
+      vals = [abs(v) for o in w.expected(pspec)[0] for v in o]
+      if sum(vals) < 2 ** 50:
+        pspec['slice'] = 'bits'
     if _two_aggs(pspec):
       ctx.count('two_agg_stage_specs')
     want = w.expected(pspec)
@@ -564,7 +587,7 @@ def chunk_e1(ctx, spec):
     layouts = [w.gen_layout(rng, pspec, p_split=rng.choice([0.0, 0.3, 0.6, 1.0]))
                for _ in range(3)]
     layouts[0]['piecewise'] = True
-    if not pspec.get('mid_agg') and i % 3 == 0:
+    if not pspec.get('mid_agg') and not pspec.get('slice') and i % 3 == 0:
       layouts.append({'kind': 'c16', 'agg_fused': rng.random() < 0.5, 'num_threads': 0})
     for layout in layouts:
       run_c(ctx, {'strategy': 'c', 'spec': pspec, 'layout': layout}, want, twin)
@@ -578,7 +601,7 @@ def chunk_e1(ctx, spec):
       else:
         layout = w.gen_layout(rng, pspec, source=source, p_split=rng.choice([0.0, 0.5]))
       via = 'make' if (j != 1) else 'ds'
-      if not pspec.get('mid_agg') and j == 2 and i % 4 == 0:
+      if not pspec.get('mid_agg') and not pspec.get('slice') and j == 2 and i % 4 == 0:
         layout, via = {'kind': 'c16', 'agg_fused': rng.random() < 0.5, 'num_threads': 0}, 'ds'
       run_d(ctx, {'strategy': 'd', 'spec': pspec, 'layout': layout, 'k': k, 'via': via},
             want, twin)
